@@ -423,9 +423,27 @@ class Gen:
             self.emit("m digest 1")
             self.emit("m inv 1")
             self.emit("m stats 1")
+        elif x < 0.9 and tid == 0:
+            # move-assign another active locked_table onto this active one: our section ends, the table is handed back
+            # unlocked, the other table stays locked under the assigned-to handle
+            self.emit("m new 2 %d" % r.choice([0, 2, 8, 40]))
+            for _ in range(r.randrange(0, 4)):
+                self.emit("m insert 2 %d %d" % (self.key(universe), r.randrange(1000)))
+            self.emit("m lock 2")
+            self.emit("m ltmoveassign 0 2")
+            self.locked[0] = False
+            self.emit("m probe 0")
+            self.emit("m probe 2")
+            self.emit("m find 0 %d" % self.key(universe))
+            self.emit("m insert 0 %d %d" % (self.key(universe), r.randrange(1000)))
+            self.emit("m ltinsert 2 %d %d" % (self.key(universe), r.randrange(1000)))
+            self.emit("m unlock 2")
+            self.emit("m probe 2")
+            self.emit("m digest 2")
         else:
             self.emit("m unlock %d" % tid)
             self.locked[tid] = False
+            self.emit("m probe %d" % tid)
 
 
 def run_pair(exe, lines, timeout=None):
@@ -466,6 +484,7 @@ class RefMap:
         self.wires = {}
         self.fails = []
         self.pol = 0
+        self.size_req = {}
         self.read_settings = {}
         self.alloc = {}
         self.exists = set()
@@ -538,6 +557,18 @@ class RefMap:
                 self.mlf[tid], self.mhp[tid] = self.mlf.get(src), self.mhp.get(src)
             self.locked[tid] = False
             return
+        if op == "ltmoveassign":
+            if got != "ok":
+                self.fail("C06", i, line, got, "move assignment onto an active locked_table: " + got)
+            self.locked[tid] = False
+            return
+        if op == "probe":
+            want = "ok held" if self.locked.get(tid) else "ok free"
+            if got != want and tid in self.maps:
+                self.fail("C06" if self.locked.get(tid) else "C04", i, line, got,
+                          "locks of the table: expected `%s` (%s)" % (want, "an active locked_table owns every lock of the current array"
+                                                                     if self.locked.get(tid) else "no locked_table is active: every lock must be free"))
+            return
         if op == "allocid":
             if tid not in self.maps:
                 return
@@ -597,6 +628,8 @@ class RefMap:
                 pass
             return
         ok = g[0] == "ok"
+        if op not in ("digest", "inv", "stats", "rehash", "reserve"):
+            self.size_req.pop(tid, None)
         val = g[1] if len(g) > 1 else None
         calls = [x[5:] for x in g if x.startswith("call=")]
 
@@ -690,7 +723,20 @@ class RefMap:
             self.mhp[tid] = int(w[2])
             self.read_settings[tid] = False
         elif op in ("rehash", "reserve"):
-            pass
+            # checked at the next digest / stats of this table: at least as large as requested
+            if ok:
+                self.size_req[tid] = (op, int(w[2]), i, line)
+        elif op == "digest":
+            d = dict(x.split("=") for x in g[1:] if "=" in x)
+            if "hp" in d and tid in self.size_req:
+                rop, n, ri, rline = self.size_req.pop(tid)
+                hp = int(d["hp"])
+                if rop == "rehash" and hp < n:
+                    self.fail("C10", ri, rline, got, "after rehash(%d) returned the hashpower is %d: smaller than requested" % (n, hp))
+                if rop == "reserve" and (1 << hp) * self.cfg.S < n:
+                    self.fail("C10", ri, rline, got, "after reserve(%d) returned the capacity is %d: smaller than requested" % (n, (1 << hp) * self.cfg.S))
+                if self.mhp.get(tid, NOMAX) != NOMAX and hp > self.mhp[tid]:
+                    self.fail("C10", ri, rline, got, "hashpower %d exceeds maximum_hashpower %d after %s" % (hp, self.mhp[tid], rop))
         elif op == "inv":
             if got != "inv ok":
                 prop = "C10" if "limit" in got else ("C05" if "count" in got else "C02")
